@@ -18,6 +18,10 @@
 //              W:<max>             call wait() again and again (at most <max> times) until every other client thread has
 //                                  finished its operations, then once more (wait() concurrent with addTask)
 //              s:<us>              sleep
+//              g                   block until the task added last has run (future.wait())
+//         align <spins>            hunting aid, delays only: the notification of addTask is held back (at most 2 ms) until a
+//                                  thread calling wait() enters pthread_cond_wait after addTask's unlock, then <spins> more
+//                                  iterations of a busy loop, so that the two really race
 //         stall <ms>               if nothing is logged for <ms> although the run is not over, dump the log + HANG, exit 7
 // stdout: the log (one event per line:  <thread> <KIND> <arg>), WORKER lines, FUTURE lines.
 #include <atomic>
@@ -82,6 +86,10 @@ static std::atomic<int> nworkers_created{0};
 static int worker_of_thread[4096];
 static unsigned long long seed = 1;
 static int perturb = 0;
+static long align_spins = -1;                     // < 0: off
+static std::atomic<long> wait_api_entering{0};    // number of pthread_cond_wait calls begun by threads inside wait()
+static thread_local bool in_wait_api = false;
+static thread_local long entering_at_unlock = 0;
 
 static void logev(int kind, long arg = 0) {
   const long i = nlog.fetch_add(1);
@@ -135,6 +143,7 @@ int __wrap_pthread_mutex_lock(pthread_mutex_t* m) {
 int __wrap_pthread_mutex_unlock(pthread_mutex_t* m) {
   if (m != pool_mutex) return __real_pthread_mutex_unlock(m);
   logev(UNLOCK);
+  entering_at_unlock = wait_api_entering.load();
   const int r = __real_pthread_mutex_unlock(m);
   maybe_delay();
   return r;
@@ -142,6 +151,7 @@ int __wrap_pthread_mutex_unlock(pthread_mutex_t* m) {
 int __wrap_pthread_cond_wait(pthread_cond_t* c, pthread_mutex_t* m) {
   if (c != pool_cond) return __real_pthread_cond_wait(c, m);
   logev(CVSLEEP);
+  if (in_wait_api) wait_api_entering.fetch_add(1);
   const int r = __real_pthread_cond_wait(c, m);
   logev(CVWAKE);
   return r;
@@ -150,6 +160,17 @@ int __wrap_pthread_cond_signal(pthread_cond_t* c) {
   if (c != pool_cond) return __real_pthread_cond_signal(c);
   logev(NOTIFY_ONE);
   maybe_delay();
+  if (align_spins >= 0) {
+    timespec t0, t1;
+    clock_gettime(CLOCK_MONOTONIC, &t0);
+    for (;;) {
+      if (wait_api_entering.load() != entering_at_unlock) break;
+      clock_gettime(CLOCK_MONOTONIC, &t1);
+      if ((t1.tv_sec - t0.tv_sec) * 1000000000L + (t1.tv_nsec - t0.tv_nsec) > 2000000L) break;
+    }
+    for (volatile long i = 0; i < align_spins; i = i + 1) {
+    }
+  }
   return __real_pthread_cond_signal(c);
 }
 int __wrap_pthread_cond_broadcast(pthread_cond_t* c) {
@@ -232,6 +253,7 @@ static void client(const std::vector<std::string>& ops) {
   for (const auto& op : ops) {
     if (op[0] == 'W') {
       const long maxn = std::atol(op.c_str() + 2);
+      in_wait_api = true;
       for (long i = 0; i < maxn && plain_clients_running.load() > 0; ++i) {
         logev(WAIT_CALL);
         pool->wait();
@@ -240,6 +262,7 @@ static void client(const std::vector<std::string>& ops) {
       logev(WAIT_CALL);
       pool->wait();
       logev(WAIT_RET);
+      in_wait_api = false;
       continue;
     }
     if (op[0] == 'a') {
@@ -251,6 +274,15 @@ static void client(const std::vector<std::string>& ops) {
       logev(WAIT_RET);
     } else if (op[0] == 's') {
       sleep_us(std::atol(op.c_str() + 2));
+    } else if (op[0] == 'g') {
+      Fut* f = nullptr;
+      {
+        std::lock_guard<std::mutex> g(futs_mutex);
+        if (!futs.empty()) f = &futs.back();  // std::deque: push_back keeps references valid
+      }
+      if (f != nullptr) {
+        if (f->kind == 'u') f->fv.wait(); else f->fl.wait();
+      }
     }
   }
 }
@@ -287,10 +319,12 @@ static void watchdog(long seconds) {
 // same purpose, quicker: every thread of the process is blocked
 static void stall_monitor(long ms) {
   long last = -1;
+  int stalled = 0;
   for (;;) {
     sleep_us(ms * 1000);
     const long n = nlog.load();
-    if (n == last) {
+    if (n != last) stalled = 0;
+    if (n == last && ++stalled >= 2) {  // two full periods without any event
       std::string out = dump_log() + "HANG\n";
       std::fwrite(out.data(), 1, out.size(), stdout);
       std::fflush(stdout);
@@ -316,6 +350,7 @@ int main() {
     else if (w == "perturb") is >> perturb;
     else if (w == "watchdog") is >> watchdog_s;
     else if (w == "stall") is >> stall_ms;
+    else if (w == "align") is >> align_spins;
     else if (w == "final") { std::string f; is >> f; final_wait = (f == "wait"); }
     else if (w == "client") {
       clients.emplace_back();
